@@ -6,7 +6,9 @@ Open Scope N_scope.
 Local Notation length := List.length.
 
 (* ---- the pipeline: the detector's label, its splitter (width tables of Gen/Detect.v, every scalar value), its encoder *)
-Definition w_label (l : label) (r : N) : nat := N.to_nat (width l r).
+(* the bits Splitter() charges: tabulated for every scalar value (width_<c>); a Go string holds scalar values only, so
+   nothing else is ever looked up - there the model charges one bit, which keeps the function positive *)
+Definition w_label (l : label) (r : N) : nat := N.to_nat (N.max 1 (width l r)).
 Definition compose_label (l : label) (ref : N) (rs : list N) : outcome (list (part bytes)) :=
   Compose.compose bytes (@length N) (w_label l) (encode_l l) ref rs.
 Definition pipeline (ref : N) (rs : list N) : outcome (list (part bytes)) := compose_label (best rs) ref rs.
